@@ -45,29 +45,35 @@ ASSUMPTIONS = [
 ]
 TRUSTED_BASE = ['bash', 'the monitor\'s least-fixpoint skip model (20 lines)']
 SHARDS = {'quick': 1, 'thorough': 16}
-TIMEOUT = {'quick': 300, 'thorough': 900}
+TIMEOUT = {'quick': 600, 'thorough': 1800}
 
 
 def FLOORS(tier):
+    # about half of the minimum over seeds 0..9 of what a complete quick run (150 pipelines) observes;
+    # thorough = 16 shards x 300 pipelines = 32 x quick
     k = 1 if tier == 'quick' else 20
     return {
         'evaluations': 100 * k,
         'pipelines_dag': 60 * k,
-        'pipelines_cyclic': 20 * k,
-        'cyclic_self': 3 * k,
-        'cyclic_resource_only_cycle': 2 * k,
+        'pipelines_cyclic': 25 * k,
+        'cyclic_rejected_before_any_marker': 25 * k,
+        'cyclic_self': 4 * k,
+        'cyclic_resource_only_cycle': 5 * k,
         'jobs_executed': 200 * k,
-        'jobs_skipped': 30 * k,
-        'jobs_failed': 30 * k,
-        'skipped_via_skipped_parent': 5 * k,
-        'always_run_ran_despite_bad_parent': 5 * k,
-        'shielded_child_ran': 2 * k,
-        'edges_resource_only': 40 * k,
-        'edges_explicit_only': 40 * k,
-        'edges_group': 10 * k,
-        'dependency_created_after_dependent': 40 * k,
-        'runs_raised': 20 * k,
-        'runs_clean': 20 * k,
+        'jobs_skipped': 40 * k,
+        'jobs_failed': 60 * k,
+        'skipped_via_skipped_parent': 4 * k,
+        'always_run_ran_despite_bad_parent': 20 * k,
+        'shielded_child_ran': 3 * k,
+        'edges_resource_only': 50 * k,
+        'edges_explicit_only': 50 * k,
+        'edges_group': 50 * k,
+        'dependency_created_after_dependent': 120 * k,
+        'numbering_edges_checked': 200 * k,
+        'execution_edges_checked': 100 * k,
+        'resource_reads_observed': 60 * k,
+        'runs_raised': 30 * k,
+        'runs_clean': 10 * k,
     }
 
 
@@ -403,10 +409,10 @@ def check(ctx, case, obs):
         if ran and skipped[j]:
             only_skipped_parents = not any(failed[p] for p in deps[j])
             kinds = {k for jj, d, k in case['edges'] if jj == j and d in why[j]}
-            if kinds <= {'resource', 'group', 'group_member'}:
-                key = 'skip/consumer-of-failed-producer-ran'
-            elif only_skipped_parents:
+            if only_skipped_parents:
                 key = 'skip/child-of-skipped-job-ran'
+            elif kinds <= {'resource', 'group', 'group_member'}:
+                key = 'skip/consumer-of-failed-producer-ran'
             else:
                 key = 'skip/child-of-failed-job-ran'
             ctx.violation(key, f'job {j} ran although dependencies {why[j]} failed or were skipped and it is not always_run', w)
@@ -449,10 +455,17 @@ def check(ctx, case, obs):
 def run(ctx):
     import hailtop.batch as hb
 
-    N = ctx.pick(300, 500)
+    import gc
+
+    # Backend.__del__ runs the event loop; a cyclic-GC pass in the middle of a run would make it complain
+    # ("event loop is already running"), so collect between cases only
+    gc.disable()
+    N = ctx.pick(150, 300)  # ~0.05 s per pipeline on an idle core (fork/exec bound: several times slower on a loaded machine)
+    ctx.set_time_budget(ctx.pick(480, 1500))  # machine-load safety net below the watchdog; the floors decide whether enough was seen
     for i, rng in ctx.cases(N):
         case = gen_case(rng)
         obs = execute(hb, case)
+        gc.collect()
         outcome = check(ctx, case, obs)
         ctx.seen('outcome_kinds', outcome[0] if isinstance(outcome, tuple) else outcome)
         key = (tuple(map(tuple, case['edges'])), tuple(case['always']), tuple(case['fails']),
